@@ -14,6 +14,8 @@ use ec_core::operator::selector::tournament::Tournament;
 use ec_core::operator::selector::worst::Worst;
 use ec_core::operator::selector::Selector;
 use ec_core::operator::{Composable, Operator};
+use ec_core::weighted::with_weighted_item::WithWeightedItem;
+use ec_core::weighted::Weighted;
 use ec_linear::mutator::with_one_over_length::WithOneOverLength;
 use ec_linear::mutator::with_rate::WithRate;
 use ec_linear::recombinator::two_point_xo::TwoPointXo;
@@ -67,6 +69,19 @@ impl Operator<i64> for Failing {
     fn apply<R: rand::Rng + ?Sized>(&self, _: i64, rng: &mut R) -> Result<i64, Boom> {
         let _ = rng.next_u64();
         Err(Boom(rng.next_u64() % 100))
+    }
+}
+/// draws a word, then fails on odd words (selects the first individual otherwise)
+pub struct DrawThenFail;
+impl Selector<Vec<i64>> for DrawThenFail {
+    type Error = Boom;
+    fn select<'p, R: rand::Rng + ?Sized>(&self, pop: &'p Vec<i64>, rng: &mut R) -> Result<&'p i64, Boom> {
+        let w = rng.next_u64();
+        if w % 2 == 1 || pop.is_empty() {
+            Err(Boom(w % 100))
+        } else {
+            Ok(&pop[0])
+        }
     }
 }
 /// x + (word % 10), drawing one word
@@ -165,6 +180,16 @@ fn run(input: &Tree) -> Option<Tree> {
                     let mk = || Tournament::new(NonZeroUsize::new(5).unwrap());
                     both!(seed, |r| mk().select(popr, r), |r| erased_select(fl, mk, popr, r), f)
                 }
+                5 => {
+                    // draws (the Bernoulli choice between the members) BEFORE it can fail
+                    let mk = || {
+                        Weighted::new(Best, 1)
+                            .with_item_and_weight(Tournament::new(NonZeroUsize::new(5).unwrap()), 1)
+                            .unwrap()
+                    };
+                    both!(seed, |r| mk().select(popr, r), |r| erased_select(fl, mk, popr, r), f)
+                }
+                6 => both!(seed, |r| DrawThenFail.select(popr, r), |r| erased_select(fl, || DrawThenFail, popr, r), f),
                 _ => None,
             }
         }
@@ -230,7 +255,7 @@ impl Operator<i64> for ThenBoxed {
 fn gen(tier: &str, rng: &mut Sm) -> Gen {
     let mut g = Gen::new();
     let reps = if tier == "thorough" { 12 } else { 2 };
-    let impls = [5, 3, 3, 4, 3];
+    let impls = [7, 3, 3, 4, 3];
     for tr in 0..5i64 {
         for im in 0..impls[tr as usize] {
             for fl in 0..NFLAVOURS {
